@@ -23,8 +23,10 @@ def nontrivial_pipe(kind, line):
     return True
 
 def run_pipe(kind, tier, seed, C):
-    h = subprocess.Popen([os.path.join(C["VERIF"], "harness", "harness"), kind, tier, str(seed)], stdout=subprocess.PIPE, stderr=subprocess.PIPE, env=C["ENV"], text=True, bufsize=1 << 20)
-    d = subprocess.Popen([os.path.join(C["VERIF"], "ocaml", "driver")], stdin=subprocess.PIPE, stdout=subprocess.PIPE, env=C["ENV"], text=True, bufsize=1 << 20)
+    epath = os.path.join(C["bdir"], "harness-%s.err" % kind); dpath = os.path.join(C["bdir"], "driver-%s.out" % kind)
+    efile = open(epath, "w"); dfile = open(dpath, "w")   # files, not pipes: nobody reads them while we feed the driver
+    h = subprocess.Popen([os.path.join(C["VERIF"], "harness", "harness"), kind, tier, str(seed)], stdout=subprocess.PIPE, stderr=efile, env=C["ENV"], text=True, bufsize=1 << 20)
+    d = subprocess.Popen([os.path.join(C["VERIF"], "ocaml", "driver")], stdin=subprocess.PIPE, stdout=dfile, env=C["ENV"], text=True, bufsize=1 << 20)
     seen = set(); n = 0; samples = []
     for line in h.stdout:
         n += 1
@@ -32,8 +34,8 @@ def run_pipe(kind, tier, seed, C):
         if nontrivial_pipe(kind, line): seen.add(hash(line))
         if n in (7, 5003, 50021): samples.append(line.strip())
     d.stdin.close()
-    herr = h.stderr.read(); h.wait()
-    dout = d.stdout.read(); d.wait()
+    h.wait(); d.wait(); efile.close(); dfile.close()
+    herr = open(epath).read(); dout = open(dpath).read()
     lines = dout.strip().split("\n")
     done = re.match(r"DONE cases=(\d+) mismatches=(\d+)", lines[-1]) if lines and lines[-1] else None
     viol = []
